@@ -1050,28 +1050,42 @@ impl DcpsDomainParticipant {
                                         &publisher_qos,
                                     );
                                 if incompatible_qos_policy_list.is_empty() {
-                                    match data_writer.matched_subscription_list.iter_mut().find(
-                                        |x| {
+                                    // A QoS update of an already matched reader is not a new match
+                                    let is_new_match = match data_writer
+                                        .matched_subscription_list
+                                        .iter_mut()
+                                        .find(|x| {
                                             x.key()
                                                 == discovered_reader_data
                                                     .dds_subscription_data
                                                     .key()
-                                        },
-                                    ) {
+                                        }) {
                                         Some(x) => {
-                                            *x =
-                                                discovered_reader_data.dds_subscription_data.clone()
+                                            *x = discovered_reader_data
+                                                .dds_subscription_data
+                                                .clone();
+                                            false
                                         }
-                                        None => data_writer.matched_subscription_list.push(
-                                            discovered_reader_data.dds_subscription_data.clone(),
-                                        ),
+                                        None => {
+                                            data_writer.matched_subscription_list.push(
+                                                discovered_reader_data
+                                                    .dds_subscription_data
+                                                    .clone(),
+                                            );
+                                            true
+                                        }
                                     };
                                     data_writer.publication_matched_status.current_count =
                                         data_writer.matched_subscription_list.len() as i32;
-                                    data_writer.publication_matched_status.current_count_change +=
-                                        1;
-                                    data_writer.publication_matched_status.total_count += 1;
-                                    data_writer.publication_matched_status.total_count_change += 1;
+                                    if is_new_match {
+                                        data_writer
+                                            .publication_matched_status
+                                            .current_count_change += 1;
+                                        data_writer.publication_matched_status.total_count += 1;
+                                        data_writer
+                                            .publication_matched_status
+                                            .total_count_change += 1;
+                                    }
 
                                     let unicast_locator_list = if discovered_reader_data
                                         .reader_proxy
